@@ -242,7 +242,7 @@ TEXT = {
     },
     "C07": {
         "level": "Kernel-checked theorems for all field values and all payloads: encode = BEP3 layout (T1), parse(encode m ++ rest) = (m, |encode m|) (T2), "
-                 "be32 inverse (T3), bitfield round trip / byte count / bit position for every piece count (T4), id table (T5). The model is tied to the Rust "
+                 "be32 inverse (T3), bitfield round trip / byte count / bit position for every piece count (T4), id table (T5). T6: whatever sequence of well-formed messages is emitted one after the other, the receive loop decodes exactly that sequence from the concatenated bytes and retains nothing (with C06.T2: for every segmentation). The model is tied to the Rust "
                  "serialisers and Frame::parse by a differential run on thousands of generated messages.",
         "note": KERNEL + "modelled not verified: Vec/slice/u32 conversions of Rust std.",
         "technique": "Lean 4 proof (round-trip / algebraic law) + generated constants + differential correspondence",
